@@ -23,6 +23,7 @@ type call struct {
 	Raw     []byte
 	Code    byte
 	Slot    string
+	KeyObj  ssh.PublicKey // the very object the served agent was handed (it may keep it, as the shim agent does)
 }
 
 // stubAgent is a recording yubiagent.YubiAgent whose results are scripted per call.
@@ -70,7 +71,7 @@ func (s *stubAgent) Forward(req []byte) ([]byte, error) {
 	return s.RawResp, s.Err
 }
 func (s *stubAgent) AddHardCert(key ssh.PublicKey, comment string) error {
-	s.rec(call{Op: "AddHardCert", KeyBlob: key.Marshal(), Comment: comment})
+	s.rec(call{Op: "AddHardCert", KeyBlob: append([]byte{}, key.Marshal()...), Comment: comment, KeyObj: key})
 	return s.Err
 }
 func (s *stubAgent) Wait(code byte) error { s.rec(call{Op: "Wait", Code: code}); return s.Err }
